@@ -86,6 +86,8 @@ def in_scope(prop, rej):
     a real defect of the library; it is reported by the check of the property
     it belongs to, the others mention it as OUT-OF-SCOPE.)"""
     x = rej['line']
+    if rej.get('textview'):
+        return prop == 'C10'
     if prop == 'C02':
         return not tainted(rej, ALG)
     if prop == 'C15':
@@ -108,7 +110,7 @@ def in_scope(prop, rej):
 SORTM = {'SortValues', 'SortValuesWithRanker', 'ReverseValues', 'ShuffleValues'}
 
 
-def run_pairs(ctx, families, codecs):
+def run_pairs(ctx, families, codecs, text_only=False):
     """World part of a check decided elsewhere (C09): every pair of consecutive
     edges of the given families replayed and validated; rejections whose script
     involves a Sortable method are violations of ctx.prop"""
@@ -134,7 +136,11 @@ def run_pairs(ctx, families, codecs):
         byid = scripts_by_file.get(rej['file'], {})
         sc = byid.get(rej['line'].get('sid'))
         steps = sc['steps'] if sc else []
-        if rej['line']['m'] in SORTM or any(st['m'] in SORTM for st in steps):
+        if text_only and not rej.get('textview'):
+            continue                 # reported by the check of the property it belongs to
+        if rej.get('textview') and not text_only:
+            continue                 # a matter of C10
+        if text_only or rej['line']['m'] in SORTM or any(st['m'] in SORTM for st in steps):
             we.judge(ctx, [rej], lambda fname: fname.rsplit('_', 1)[1].split('.')[0], byid)
         else:
             oos += 1
